@@ -138,8 +138,14 @@ pub type Float64Index = BTreeIndex<OrderedFloat, NodeId>;
 ///
 /// Since f64 doesn't implement Ord (due to NaN), we need this wrapper.
 /// NaN values are treated as equal to each other.
-#[derive(Debug, Clone, Copy, PartialEq)]
+#[derive(Debug, Clone, Copy)]
 pub struct OrderedFloat(pub f64);
+
+impl PartialEq for OrderedFloat {
+    fn eq(&self, other: &Self) -> bool {
+        self.cmp(other) == std::cmp::Ordering::Equal
+    }
+}
 
 impl Eq for OrderedFloat {}
 
@@ -151,9 +157,12 @@ impl PartialOrd for OrderedFloat {
 
 impl Ord for OrderedFloat {
     fn cmp(&self, other: &Self) -> std::cmp::Ordering {
+        // NaN is equal to NaN and greater than every number, so that the order is
+        // total (a NaN compared `Equal` to *everything* made it alias whatever key
+        // the B-tree search happened to look at first).
         self.0
             .partial_cmp(&other.0)
-            .unwrap_or(std::cmp::Ordering::Equal)
+            .unwrap_or_else(|| self.0.is_nan().cmp(&other.0.is_nan()))
     }
 }
 
